@@ -95,3 +95,11 @@ func specStrAt(s string, i int) byte {
 
 // gvcSameMap: a and b are the same map object (maps cannot be compared in Go).
 func gvcSameMap[K comparable, V any](a, b map[K]V) bool { panic("ghost") }
+
+// specB2U: 1 for true, 0 for false (replay inputs only).
+func specB2U(b bool) int {
+	if b {
+		return 1
+	}
+	return 0
+}
